@@ -42,27 +42,27 @@ package handler
 
 //@ func (*invocationNextHandler).ServeHTTP
 //@   ensures [C12: a-call-without-a-runtime-is-refused-403] delta(NoRuntime) == 1 ==> delta(RtNext) == 0 && delta(Render403) == 1 && noSideEffects()
-//@   ensures [one-transition] delta(RtNext) == 1
+//@   ensures [one-transition] delta(NoRuntime) == 0 ==> delta(RtNext) == 1
 //@   ensures [refused-403] delta(RtNextRefused) == 1 ==> delta(Render403) == 1 && noSideEffects()
-//@   ensures [accepted-renders-event] delta(RtNextRefused) == 0 ==> delta(RenderEvent) == 1 && delta(Render403) == 0
+//@   ensures [accepted-renders-event] delta(RtNext) == 1 && delta(RtNextRefused) == 0 ==> delta(RenderEvent) == 1 && delta(Render403) == 0
 
 //@ func (*restoreNextHandler).ServeHTTP
 //@   ensures [C12: a-call-without-a-runtime-is-refused-403] delta(NoRuntime) == 1 ==> delta(RtRestoreNext) == 0 && delta(Render403) == 1 && noSideEffects()
-//@   ensures [one-transition] delta(RtRestoreNext) == 1
+//@   ensures [one-transition] delta(NoRuntime) == 0 ==> delta(RtRestoreNext) == 1
 //@   ensures [refused-403] delta(RtRestoreNextRefused) == 1 ==> delta(Render403) == 1 && noSideEffects()
-//@   ensures [accepted-renders-event] delta(RtRestoreNextRefused) == 0 ==> delta(RenderEvent) == 1 && delta(Render403) == 0
+//@   ensures [accepted-renders-event] delta(RtRestoreNext) == 1 && delta(RtRestoreNextRefused) == 0 ==> delta(RenderEvent) == 1 && delta(Render403) == 0
 
 //@ func (*restoreErrorHandler).ServeHTTP
 //@   ensures [C12: a-call-without-a-runtime-is-refused-403] delta(NoRuntime) == 1 ==> delta(RtRestoreError) == 0 && delta(Render403) == 1 && noSideEffects()
-//@   ensures [one-transition] delta(RtRestoreError) == 1
+//@   ensures [one-transition] delta(NoRuntime) == 0 ==> delta(RtRestoreError) == 1
 //@   ensures [refused-403] delta(RtRestoreErrorRefused) == 1 ==> delta(Render403) == 1 && noSideEffects()
-//@   ensures [accepted-202] delta(RtRestoreErrorRefused) == 0 ==> delta(RenderAccepted) == 1 && delta(Render403) == 0
+//@   ensures [accepted-202] delta(RtRestoreError) == 1 && delta(RtRestoreErrorRefused) == 0 ==> delta(RenderAccepted) == 1 && delta(Render403) == 0
 
 //@ func (*invocationResponseHandler).ServeHTTP
 //@   ensures [C12: a-call-without-a-runtime-is-refused-403] delta(NoRuntime) == 1 ==> delta(RtResponse) == 0 && delta(Render403) == 1 && noSideEffects()
-//@   ensures [one-transition] delta(RtResponse) == 1
+//@   ensures [one-transition] delta(NoRuntime) == 0 ==> delta(RtResponse) == 1
 //@   ensures [refused-403] delta(RtResponseRefused) == 1 ==> delta(Render403) == 1 && noSideEffects()
-//@   ensures [accepted-sends] delta(RtResponseRefused) == 0 ==> delta(Render403) == 0 && (delta(SendResponse) == 1 || delta(SendError) == 1)
+//@   ensures [accepted-sends] delta(RtResponse) == 1 && delta(RtResponseRefused) == 0 ==> delta(Render403) == 0 && (delta(SendResponse) == 1 || delta(SendError) == 1)
 //@   ensures [ok-202] delta(SendResponseOK) == 1 ==> delta(RtResponseSent) == 1 && delta(RenderAccepted) == 1 && delta(Render413) == 0
 //@   ensures [stale-or-duplicate-400] delta(SendResponseRefused) == 1 ==> delta(RenderInterop) == 1 && delta(RtResponseSent) == 0 && delta(RenderAccepted) == 0 && delta(SendError) == 0
 //@   ensures [oversize-413] delta(SendResponseTooLarge) == 1 && delta(SendErrorOK) == 1 ==> delta(SendError) == 1 && delta(RtResponseSent) == 1 && delta(Render413) == 1 && delta(RenderAccepted) == 0
@@ -71,9 +71,9 @@ package handler
 
 //@ func (*invocationErrorHandler).ServeHTTP
 //@   ensures [C12: a-call-without-a-runtime-is-refused-403] delta(NoRuntime) == 1 ==> delta(RtError) == 0 && delta(Render403) == 1 && noSideEffects()
-//@   ensures [one-transition] delta(RtError) == 1
+//@   ensures [one-transition] delta(NoRuntime) == 0 ==> delta(RtError) == 1
 //@   ensures [refused-403] delta(RtErrorRefused) == 1 ==> delta(Render403) == 1 && noSideEffects()
-//@   ensures [accepted-sends] delta(RtErrorRefused) == 0 ==> delta(SendError) >= 1 && delta(Render403) == 0
+//@   ensures [accepted-sends] delta(RtError) == 1 && delta(RtErrorRefused) == 0 ==> delta(SendError) >= 1 && delta(Render403) == 0
 //@   ensures [ok-202] delta(SendErrorTooLarge) == 0 && delta(SendErrorOK) == 1 ==> delta(RtResponseSent) == 1 && delta(RenderAccepted) == 1 && delta(StoreTrace) == 1
 //@   ensures [refused-by-server-400] delta(SendError) == 1 && delta(SendErrorOK) == 0 && delta(SendErrorTooLarge) == 0 ==> delta(RenderInterop) == 1 && delta(RtResponseSent) == 0 && delta(RenderAccepted) == 0
 // an error body above the payload limit is handled like a response above it: the caller gets the size error, the runtime is
@@ -83,7 +83,7 @@ package handler
 
 //@ func (*initErrorHandler).ServeHTTP
 //@   ensures [C12: a-call-without-a-runtime-is-refused-403] delta(NoRuntime) == 1 ==> delta(RtInitError) + delta(RtRestoreError) == 0 && delta(Render403) == 1 && noSideEffects()
-//@   ensures [at-most-one-transition] delta(RtInitError) + delta(RtRestoreError) == 1
+//@   ensures [at-most-one-transition] delta(NoRuntime) == 0 ==> delta(RtInitError) + delta(RtRestoreError) == 1
 //@   ensures [refused-403] delta(RtInitErrorRefused) == 1 || delta(RtRestoreErrorRefused) == 1 ==> delta(Render403) == 1 && noSideEffects()
 //@   ensures [accepted-init-error] delta(RtInitError) == 1 && delta(RtInitErrorRefused) == 0 ==> delta(SendInitError) == 1 && delta(Render403) == 0
 //@   ensures [restore-branch-never-sends] delta(RtRestoreError) == 1 ==> delta(SendInitError) == 0
